@@ -79,12 +79,16 @@ Rows == {
   U("liquidity.MarketOrder", "cswap"), U("liquidity.MMOrder", "cswap"), U("liquidity.Farm", "cswap"),
   U("liquidity.DepositAndFarm", "cswap"),
   \* ---------------- auctionsV2 ----------------
-  U("auctionsV2.MsgPlaceMarketBid", "none"),
+  \* a market bid on a Dutch auction converts the debt paid into collateral at the auction price: it values the debt asset
+  \* (as coded the handler reads the debt asset's TWA without looking at `found` or `IsPriceActive`: ip = {})
+  R("auctionsV2.MsgPlaceMarketBid",   "harbor", "bid", "none", "other", FALSE, FALSE, {"out"}, FALSE, FALSE, "none", N, FALSE, TRUE),
   R("auctionsV2.MsgDepositLimitBid",  "none", "limitbid", "signer", "enlarge", FALSE, FALSE, N, FALSE, FALSE, "none", N, FALSE, FALSE),
   R("auctionsV2.MsgCancelLimitBid",   "none", "limitbid", "signer", "close",   FALSE, FALSE, N, FALSE, FALSE, "none", N, FALSE, FALSE),
   R("auctionsV2.MsgWithdrawLimitBid", "none", "limitbid", "signer", "reduce",  FALSE, FALSE, N, FALSE, FALSE, "none", N, FALSE, FALSE),
   \* ---------------- liquidation (both generations): judged as hooks, see Controls.tla ----------------
-  U("liquidationsV2.MsgLiquidateInternalKeeper", "harbor"), U("liquidationsV2.MsgLiquidateExternalKeeper", "none"),
+  U("liquidationsV2.MsgLiquidateInternalKeeper", "harbor"),
+  \* an external keeper hands in collateral; a Dutch auction priced from the collateral's and the debt asset's oracle price starts
+  R("liquidationsV2.MsgLiquidateExternalKeeper", "harbor", "extliq", "none", "other", FALSE, FALSE, IO, FALSE, FALSE, "none", IO, FALSE, TRUE),
   U("liquidationsV2.MsgAppReserveFunds", "none"),
   U("liquidation.MsgLiquidateVault", "harbor"), U("liquidation.MsgLiquidateBorrow", "commodo"),
   \* ---------------- auction V1 ----------------
@@ -104,9 +108,10 @@ Row(id) == CHOOSE r \in Rows : r.id = id
 (* rows that carry at least one expectation of C12 or C14 *)
 ConstrainedC12(r) == r.own \in {"id", "signer"}
 ControlledKinds == {"vault", "stable", "locker", "lend", "borrow"}
-ConstrainedC14(r) == r.pk \in ControlledKinds /\
-                     ( r.eff \in {"open", "enlarge", "draw"} \/ (r.pk \in {"vault", "stable"} /\ r.eff \in {"repay", "close", "withdraw"})
-                       \/ r.anch \/ r.mint \/ r.wdr \/ r.px # {} )
+ConstrainedC14(r) == \/ r.pk \in ControlledKinds /\
+                         ( r.eff \in {"open", "enlarge", "draw"} \/ (r.pk \in {"vault", "stable"} /\ r.eff \in {"repay", "close", "withdraw"})
+                           \/ r.anch \/ r.mint \/ r.wdr )
+                     \/ r.px # {}          \* any operation that needs an oracle price, whatever module it belongs to
 Unconstrained == {r \in Rows : ~ConstrainedC12(r) /\ ~ConstrainedC14(r)}
 
 (* well-formedness of the table (checked by TLC in MC_Matrix) *)
